@@ -3,16 +3,16 @@ from ..gens import *
 
 ID = "C19"
 LEAN_MODULE = "Ucfg.Props.C19"
-LEVEL_TEXT = "Collector/flag theorems: the first error sticks, settings accumulate as merges with the flag's options, empty values ignored, bare keys mean true."
-CORRESPONDENCE = "Flag.flagSets/collectorAdd ~ flag.NewFlagKeyValue(...).Set / cfgutil.Collector.Add"
+LEVEL_TEXT = "The statement as a whole for any loader (collect_eq_spec: after any sequence of Set calls the collector holds the configs before the first failing argument merged in order with the flag's options, and that first failure), instantiated for -flag key=value (flag_is_fold_of_merges) and file flags (fileflag_is_fold_of_merges, file_failure_recorded); the first error sticks, empty values ignored, bare keys mean true."
+CORRESPONDENCE = "Flag.flagSets/fileSets/collectorAdd ~ flag.NewFlagKeyValue(...).Set / flag.NewFlagFiles(...).Set / cfgutil.Collector.Add"
 RULE = ("argument sequences (1-8) of key=value / bare key / key= / =value / malformed values at a random position; keys with dots "
         "and indices over an overlapping address space; values in every syntax parse.Value accepts (numbers, bools, quoted strings, "
         "lists, objects, top-level comma lists); option sets with and without PathSep and each merge policy; autoBool on/off. Oracle: "
         "Config() = fold of Merge over the arguments' configs with the flag's options up to the first failing argument, Error() set "
-        "exactly when one failed, and Error() read after every Set never changes once it is non-nil; the collector keeps the options. A fifth of the sequences address a top-level list (keys whose first segment is an index). Non-trivial: two arguments address overlapping settings or one is "
+        "exactly when one failed, and Error() read after every Set never changes once it is non-nil; the collector keeps the options. File flags (kind fileflags): 1-5 yaml / json files with overlapping settings per flag, among them files whose extension has no loader (with and without the \"\" fallback), missing and malformed files at any position, under every policy. A fifth of the sequences address a top-level list (keys whose first segment is an index). Non-trivial: two arguments address overlapping settings or one is "
         "malformed. Distinct by (policy, PathSep, multiset of argument kinds, error position).")
 TRUSTED_BASE = ["Lean 4 kernel", "Model/Flag.lean transcribes flag/util.go, flag/value.go, cfgutil.go; Parse/Normalize/Merge models", "correspondence harness"]
-ASSUMPTIONS = ["file flags (NewFlagFiles) share the collector and are covered through it, their loaders are the C18 front-ends"]
+ASSUMPTIONS = ["the loaders registered for file flags are the C18 front-ends (yaml / json NewConfigWithFile); the decoded document is given to the model"]
 
 KEYS2 = ["a", "b", "a.b", "a.c", "l.0", "l.1", "l.0.x", "a.b.c", "m"]
 VALS = ["1", "-2", "0x10", "1.5", "true", "off", "null", "str", "'q s'", '"d\\"q"', "[1,2]", "[a, b, c]", "{x: 1}", "{x: {y: 2}}", "a,b", "1,2,3",
@@ -59,6 +59,62 @@ def gen(rng, tier):
         nt = len(set(keys)) < len(keys) or "bad" in kinds or any(k1 != k2 and (k1.startswith(k2 + ".") or k2.startswith(k1 + ".")) for k1 in keys for k2 in keys)
         yield {"k": "flags", "args": args, "opts": opts, "autoBool": ab, "_tag": "flags/" + (pol or "default"),
                "_sig": "%s|%s|%s|%s" % (pol, sep, ab, "+".join(sorted(kinds))), "_nt": nt}
+
+
+def gen_files(rng, n):
+    """file flags: 1-5 files per flag (yaml and json documents with overlapping settings), among them files whose
+    extension has no loader (with and without the "" fallback), files that do not exist and files the decoder refuses, at any
+    position"""
+    from . import c18
+    def doc():
+        ks = rng.shuffle(["a", "b", "l", "m"])[:1 + rng.below(3)]
+        def val(k):
+            r = rng.below(6)
+            if k == "l" or r == 0: return A([U(rng.below(5)) for _ in range(1 + rng.below(3))])
+            if k == "m" or r == 1: return M([(rng.pick(["x", "y"]), U(rng.below(9))), ("s", S(rng.pick(["p", "q"])))][:1 + rng.below(2)])
+            if r == 2: return S(rng.pick(["one", "two"]))
+            if r == 3: return B(rng.chance(0.5))
+            return U(rng.below(100))
+        return M([(k, val(k)) for k in ks])
+    for i in range(n):
+        opts = []
+        if rng.chance(0.6): opts.append(opt("PathSep", "."))
+        pol = rng.pick([None, None, "Replace", "ReplaceArr", "Append", "Prepend"])
+        if pol: opts.append(opt(pol))
+        files, kinds = [], set()
+        for j in range(1 + rng.below(5)):
+            r = rng.below(12)
+            d = doc()
+            ext = rng.pick([".yml", ".json"])
+            f = {"name": rng.pick(["conf", "app", "over"]), "ext": ext, "doc": c18.ints_to_i(d), "text": c18.render(d)}
+            if r == 0:
+                f["ext"] = rng.pick([".txt", ".yaml", "", ".conf"]); kinds.add("noloader")
+            elif r == 1:
+                f["missing"] = True; kinds.add("missing")
+            elif r == 2:
+                f["doc"] = None; f["text"] = rng.pick(['{"a": ', "a: [1, 2", '{"a": [1, {"b": ']); kinds.add("malformed")
+            else:
+                kinds.add(ext)
+            files.append(f)
+        yield {"k": "fileflags", "files": files, "opts": opts, "fallback": rng.chance(0.25), "_tag": "fileflags/" + (pol or "default"),
+               "_nt": len(files) > 1, "_sig": "files|%s|%s|%d" % (pol, "+".join(sorted(kinds)), len(files))}
+
+
+def fix_candidate(cand, base):
+    """shrinking file flags: files are dropped, never edited (text and document belong together)"""
+    if cand.get("k") == "fileflags":
+        fs = cand.get("files")
+        if not isinstance(fs, list) or not all(f in base.get("files", []) for f in fs):
+            return None
+    return cand
+
+
+_gen_kv = gen
+
+
+def gen(rng, tier):
+    yield from _gen_kv(rng, tier)
+    yield from gen_files(rng.fork("files"), 300 if tier == "quick" else 3000)
 
 
 def normalize_result(case, res):
